@@ -328,4 +328,11 @@ def run(P, R, tier):
     holds.soft_hold_typestate(P, R, 'C07.GRD.3')
     # one client's line is handled whatever line of another client precedes it in the same read
     c08.drains_buffer(P, R, 'C07.MPT.2')
+    # a reload does not move the slots that pending clients' masks refer to (sweep after the re-add)
+    from . import c17
+    H17 = c17.wiring(P, Remap(R, {}))
+    c17.rebuilds(P, Remap(R, {'C17.MPT.3': 'C07.MPT.4'}), H17)
+    # two clients are told apart by id, serial and slot bit: none of them is truncated when stored
+    rules.narrowing_fields(P, R, 'C07.WID.1', ('modules/iauth_core.c', 'modules/iauth_xquery.c', 'modules/iauth_class.c'))
+    rules.counter_widths(P, R, 'C07.WID.2', recs=('iauth_xquery_service', 'iauth_request', 'set'))
     return EXPLANATION, ASSUMPTIONS
